@@ -321,6 +321,8 @@ func c03Enum() *senum {
 			func() *rt.Node { return rt.Assign("=", Id("pk"), Id("x")) },
 			func() *rt.Node { return rt.Call("p", Id("pk"), Id("_")) },
 			func() *rt.Node { return rt.Assign("=", Id("pk"), rt.Nil()) }, // a nil-valued variable still shadows the point key
+			func() *rt.Node { return rt.Assign("+=", Id("n0"), I(5)) },    // compound assignment to a name that is only a point key
+			func() *rt.Node { return rt.Assign("=", Id("x"), rt.Bin("/", Id("x"), Id("n0"))) }, // a run-time error (n0 is 0 unless assigned)
 		},
 		loopOnly: []nodeFn{func() *rt.Node { return rt.Break() }, func() *rt.Node { return rt.Continue() }},
 		conds: []nodeFn{
@@ -330,7 +332,7 @@ func c03Enum() *senum {
 		},
 		forInits: []nodeFn{nil, func() *rt.Node { return rt.Assign("=", Id("y"), I(0)) }},
 		forConds: []nodeFn{nil, func() *rt.Node { return rt.Bin("<", Id("x"), I(2)) }},
-		forSteps: []nodeFn{nil, func() *rt.Node { return inc("x") }},
+		forSteps: []nodeFn{nil, func() *rt.Node { return inc("x") }, func() *rt.Node { return rt.Assign("=", Id("z"), Id("x")) }}, // the last one first assigns a name in the post clause
 		forIns: []func(body *rt.Node) *rt.Node{
 			func(b *rt.Node) *rt.Node { return rt.ForIn("y", rt.List(I(1), I(2)), b) },
 			func(b *rt.Node) *rt.Node { return rt.ForIn("x", rt.Str("ab"), b) },
@@ -364,7 +366,7 @@ func c03Structural(w *run.Worker) {
 			}
 			stmts := []*rt.Node{rt.Assign("=", Id("x"), I(0))}
 			stmts = append(stmts, asNodes(fam.At(i))...)
-			stmts = append(stmts, rt.Call("p", Id("x"), Id("y"), Id("pk")))
+			stmts = append(stmts, rt.Call("p", Id("x"), Id("y"), Id("pk"), Id("z"), Id("n0")))
 			c03Exec(w, "structure", stmts)
 		}
 	}
@@ -390,7 +392,7 @@ func init() {
 		Level: "model_checking",
 		Rule: "(A) every ordered pair of 26 condition representatives (all truthiness classes; literals, variables, point keys, a tag, an absent name) in if/elif/else, and each as for-condition; " +
 			"(B) 17 iterables (lists, strings incl. multi-byte, 0/1/2-key maps, point values, non-iterables) x 4 loop-variable names x 9 bodies (continue, break, nested loop, shadowing, mutation during iteration); " +
-			"(C) every program of total size <=4 (thorough <=5) statements, nesting <=3, over {probe(x,y), probe(pk,_), x=x+1, y=7, x+=10, pk=x, pk=nil, break, continue} x if / if-else / if-elif-else x the 8 three-clause for shapes x 3 for-in forms; " +
+			"(C) every program of total size <=3 (thorough <=4) statements, nesting <=3, over {probe(x,y), probe(pk,_), x=x+1, y=7, x+=10, pk=x, pk=nil, n0+=5 (a name that is only a point key), x=x/n0 (a run-time error while n0 is 0), break, continue} x if / if-else / if-elif-else x the 12 three-clause for shapes (init absent|y=0, condition absent|x<2, post absent|x=x+1|z=x) x 3 for-in forms, final probe of x, y, pk, z, n0; " +
 			"ordered probe trace + final point compared with the reference interpreter; map iteration order is tried in both orders",
 		Assumptions: []string{"non-terminating programs are cut by a signal after 3000 polls (real) / 40000 steps (reference) and compared as trace prefixes"},
 		Run:            c03Run,
